@@ -329,7 +329,29 @@ func ruleErrorFlow(r *Report, id, text string, floor int, fns []string, exceptio
 		withClosures(top, func(f *ssa.Function) {
 			n := 0
 			var bad *ssa.Call
+			var badDefer ssa.Instruction
+			badDeferName := ""
 			allInstrs(f, func(ins ssa.Instruction) {
+				if d, isDefer := ins.(*ssa.Defer); isDefer {
+					// a deferred call cannot hand its error to anyone: accepted only for cleanup
+					// (removing / closing the temporary log), never for something that still
+					// writes (Flush, Sync, Close of a writer, Write…)
+					if _, isErr := returnsError(&d.Call); isErr {
+						callee := calleeShort(&d.Call)
+						if callee == "" && d.Call.IsInvoke() {
+							callee = d.Call.Method.Name()
+						}
+						switch callee {
+						case "os.Remove", "(*commit.Log).Close", "(*os.File).Close":
+						default:
+							n++
+							if badDefer == nil {
+								badDefer, badDeferName = ins, callee
+							}
+						}
+					}
+					return
+				}
 				c, ok := ins.(*ssa.Call)
 				if !ok {
 					return
@@ -356,6 +378,10 @@ func ruleErrorFlow(r *Report, id, text string, floor int, fns []string, exceptio
 				}
 			})
 			if n == 0 {
+				return
+			}
+			if badDefer != nil {
+				h.Bad(fnName(f), r.P.InstrPos(badDefer), "the error of the deferred "+badDeferName+" is lost (a deferred call that still writes — flush, sync, close of a writer — must report its error)")
 				return
 			}
 			if bad != nil {
